@@ -1,5 +1,5 @@
 (* Inst.v — the printer instantiated with the regenerated filter set. *)
-From Odf Require Import model.Base model.Chars model.XmlPrint model.XmlLex model.XmlTree gen.GenChars.
+From Odf Require Import model.Base model.Chars model.XmlPrint model.XmlLex model.XmlTree model.Doc gen.GenChars gen.GenNs gen.GenStyleRefs.
 
 Definition F := filtered_ranges.
 Definition i_text_toXml := textnode_toXml F.
@@ -10,3 +10,12 @@ Definition i_canon := canon F.
 Definition i_write_open_tag := write_open_tag F.
 Definition i_xml_parse := xml_parse.
 Definition i_lex := lex.
+
+(* the document layer instantiated with the regenerated tables *)
+Definition RA : list qname := scanned_refattrs.
+Definition i_used_auto_styles := used_auto_styles RA.
+Definition i_contentxml := contentxml F RA xml_prologue.
+Definition i_stylesxml := stylesxml F RA xml_prologue.
+Definition i_metaxml := metaxml F xml_prologue toolsversion.
+Definition i_settingsxml := settingsxml F xml_prologue.
+Definition i_flatxml := flatxml F xml_prologue toolsversion.
